@@ -49,6 +49,12 @@ impl SocketSend for ReqSocket {
                 message,
             });
         }
+        if message.is_empty() {
+            return Err(ZmqError::ReturnToSender {
+                reason: "Unable to send a message without frames",
+                message,
+            });
+        }
         // In normal scenario this will always be only 1 iteration
         loop {
             let next_peer_id = match self.backend.round_robin.next() {
